@@ -11,8 +11,11 @@ EXPL = ('(R-POLY/exp) exponentiate_gt(a, c) is interpreted in the exponent domai
         'Frobenius/conjugate table), every one of the 256 bits is used, the found-one flag idiom is PROVEN equivalent to unconditional '
         'squaring (the guarded statement fixes the accumulator once all consumed bits are zero), for distinct and aliased result; the '
         'generic square-and-multiply routines weight bit i by 2^i for every bit of the operand width; (R-POLY/cyclotomic) the fast '
-        'squaring equals a*a on the cyclotomic subgroup (difference in the span of the subgroup relations). The division-based '
-        'decomposition arithmetic (k -> digits) is value-level and NOT decided. Also decided: (R-REJECT) '
+        'squaring equals a*a on the cyclotomic subgroup (difference in the span of the subgroup relations). (R-WORDALG/c++) '
+        'PowersOfX::decompose is executed at word level on the 64-bit-word configurations: on every path (y < r, y == r, y > r) '
+        'c0 + c1|x| + c2|x|^2 + c3|x|^3 - y is a multiple of r identically in the words of y, with the comparison against r, the '
+        'ordered subtraction and the three divisions by |x| (modelled by a == d*q + rem, 0 <= rem < d) contributing exactly; the upper '
+        'quotient words that the code discards are shown to be zero from the ranges. Also decided: (R-REJECT) '
         'in PowersOfX::random each digit loop exits only when the digit compares below |x| and the outer loop only when the '
         'recombined y compares below r (the "uniformly chosen y in [0,r)" clause), all four digits are drawn and digit k is '
         'recombined with |x|^k (R-CONST); bls_x facts; the simultaneous-exponentiation loop consumes every bit of the 64-bit '
@@ -22,7 +25,7 @@ EXPL = ('(R-POLY/exp) exponentiate_gt(a, c) is interpreted in the exponent domai
 def run(ctx):
     ctx.explanation = EXPL
     ctx.level = 'other'
-    ctx.assumptions = ['the digit decomposition k -> (c0..c3) by repeated division is not decided; tower operations are the field operations (C04)']
+    ctx.assumptions = ['on 32-bit-word configurations the bit-serial division inside PowersOfX::decompose is not decided (the 64-bit-word configurations decide the decomposition on every path); tower operations are the field operations (C04)']
     for cfg, prog in ctx.programs().items():
         n = guards.rule_defout(ctx, cfg, prog, name_filter=lambda f: 'Fq12' in f['qn'] or 'exponentiate' in f['qn'])
         ctx.floor('R-DEFOUT accumulation functions[%s]' % cfg, n, 3)
@@ -31,6 +34,8 @@ def run(ctx):
         e = formulas.rule_exponents_gt(ctx, cfg, prog, which=('gtexp', 'generic'))
         ctx.floor('R-POLY cyclotomic/exponent obligations[%s]' % cfg, c + e, 7)
         consts.rule_pairing_constants(ctx, cfg, prog)
+        from .. import cppword
+        cppword.rule_decompose(ctx, cfg, prog)
         fs = [f for f in prog.fn_by_qn(NS + 'Fq12::exponentiate_gt') if 'PowersOfX' in f['params'][1]['t']['s']]
         ctx.require(len(fs) == 1, 'Fq12::exponentiate_gt(Fq12, PowersOfX) not found')
         f = fs[0]
